@@ -111,9 +111,11 @@ def leg_R(ctx, cfg, maxn, maxc, rnd, workers=4, heap="4g"):
                                                  res["executed"], res["nbad"]))
     ctx.traces += len(cases) * len(maps) - res["nbad"]
     ctx.extra["replayed_calls"] = ctx.extra.get("replayed_calls", 0) + res["executed"]
-    k = min(len(cases) - 1, 3000)
-    ctx.sample({"leg": "R", "starts": cases[k]["starts"], "ends": cases[k]["ends"], "queries": queries,
-                "covering": cases[k]["answers"], "panic": cases[k]["panic"]})
+    rich = [c for c in cases if not c["panic"] and any(len(a) >= 2 for a in c["answers"])
+            and any(s >= e for s, e in zip(c["starts"], c["ends"]))]
+    for c in (rich[len(rich) // 2:][:1] + [c for c in cases if c["panic"]][:1]):
+        ctx.sample({"leg": "R", "starts": c["starts"], "ends": c["ends"], "queries": c["queries"],
+                    "covering": c["answers"], "panic": c["panic"]})
     # report the smallest failing cases first, a few of them
     mms.sort(key=lambda m: (len(cases[m["case"]]["starts"]), m["map"], m["case"]))
     seen = set()
@@ -223,8 +225,8 @@ def run(ctx):
     if ctx.tier == "thorough":
         leg_R(ctx, "MC_Regions_n4", 4, 3, rnd, workers=16, heap="8g")
         leg_R(ctx, "MC_Regions_n3c5", 3, 5, rnd, workers=16, heap="8g")
-        leg_T(ctx, 300)
-        leg_C(ctx, 40)
+        leg_T(ctx, 600)
+        leg_C(ctx, 80)
     else:
         leg_R(ctx, "MC_Regions_n3", 3, 3, rnd)
         leg_T(ctx, 60)
